@@ -292,4 +292,32 @@ Proof.
     rewrite !zsum_cons, IH. cg_ring.
 Qed.
 
+(* CosiAggregateCommitment: the R half is the sum of the commitments, every
+   commitment decodes and every index is inside the mask width *)
+Lemma commit_loop_sum : forall rs p mask p' mask',
+  commit_loop l rs p mask = Ok (p', mask') ->
+  cg l p' (p + zsum (map snd rs)) /\
+  Forall (fun ir => point_ok l (snd ir) = true /\ 0 <= fst ir < Consts.CosiMaskBits) rs.
+Proof.
+  intros rs. induction rs as [|[i r] rs IH]; intros p mask p' mask' Hc; cbn [commit_loop] in Hc.
+  - inversion Hc; subst. split; [cbn; cg_ring | constructor].
+  - destruct (point_ok l r) eqn:Ep; cbn [negb] in Hc; [|discriminate].
+    unfold mark in Hc. destruct ((Consts.CosiMaskBits <=? i) || (i <? 0)) eqn:Er; [discriminate|].
+    cbn [bind] in Hc. destruct (IH _ _ _ _ Hc) as [E HF].
+    apply orb_false_iff in Er. destruct Er as [E1 E2]. apply Z.leb_gt in E1. apply Z.ltb_ge in E2.
+    split.
+    + rewrite E, fadd_cg. cbn [map snd]. rewrite zsum_cons. cg_ring.
+    + constructor; [cbn [fst snd]; split; [exact Ep | lia] | exact HF].
+Qed.
+
+Lemma commitment_sum : forall rs c, aggregate_commitment l rs = Ok c ->
+  c_commits c = rs /\ c_s c = 0 /\ cg l (c_r c) (zsum (map snd rs)) /\
+  Forall (fun ir => point_ok l (snd ir) = true /\ 0 <= fst ir < Consts.CosiMaskBits) rs.
+Proof.
+  intros rs c Hc. unfold aggregate_commitment in Hc. destruct rs as [|ir rs]; [discriminate|].
+  destruct (commit_loop l (ir :: rs) 0 0%N) as [[p mask]| |] eqn:El; cbn [bind] in Hc; try discriminate.
+  inversion Hc; subst. cbn [c_commits c_s c_r fst]. destruct (commit_loop_sum _ _ _ _ _ El) as [E HF].
+  repeat split; [|exact HF]. rewrite E. cg_ring.
+Qed.
+
 End CosiProofs.
